@@ -28,7 +28,7 @@ KINDS = ["dephasing", "relaxation", "depolarizing", "eff", "eff+relaxation", "al
 
 def gen_cases(tier, seed):
     rng = np.random.default_rng(seed)
-    n_cases = 48 if tier == "quick" else 800
+    n_cases = 48 if tier == "quick" else 480
     cases = []
     for i in range(n_cases):
         u = rng.random()
